@@ -333,6 +333,8 @@ class Ref:
         cands = [value]
         if value.startswith(prefix):
             cands.append(value[len(prefix):])
+        elif prefix == "0x" and value.startswith("-0x"):
+            cands.append("-" + value[3:])
         if name.startswith("&"):
             fam = split_family(name)
             if fam:
